@@ -126,11 +126,11 @@ def shrink(case, sig, budget=400):
 
 # ---------------------------------------------------------------------------- correspondence
 IO_DEF = ("Definition io_agree (c : text * list text * (text * list text)) : bool :=\n"
-          "  let '(d, chunks, (b, recs)) := c in let '(b', recs') := run_chunks_textmode d chunks in\n"
+          "  let '(d, chunks, (b, recs)) := c in let '(b', recs') := %s d chunks in\n"
           "  text_eqb b b' && list_eqb text_eqb recs recs'.\n")
 
 
-def correspondence(co, shard=400):
+def correspondence(co, as_found_io=True, shard=400):
     """co: list of (case, obs) without crashes.  Returns (mismatch indices into co, errors, io_mismatch indices)."""
     d = common.scratch(PROP)
     groups = {"tf": [], "fn": [], "sp": [], "io": []}
@@ -151,7 +151,7 @@ def correspondence(co, shard=400):
             with open(p, "w") as f:
                 f.write(G.COQ_HEADER)
                 if kind == "io":
-                    f.write(IO_DEF)
+                    f.write(IO_DEF % ("run_chunks_textmode" if as_found_io else "run_chunks_textmode_fixed"))
                 f.write("Definition cs := [\n%s\n].\n" % ";\n".join(f_enc(*co[i]) for i in part))
                 f.write("Eval vm_compute in (%s cs).\n" % fun)
             files.append((p, kind, part))
@@ -223,12 +223,13 @@ def run(prop, tier, seed, replay=None):
     as_found_io = any(s.startswith("C17/from_textfile/textmode/crlf") for s in by_sig)
     # correspondence inside Coq
     t2 = time.time()
-    mism, errors, io_mism, sent = correspondence(co)
+    mism, errors, io_mism, sent = correspondence(co, as_found_io)
     t_coq = time.time() - t2
     for p, o_ in errors:
         out.violation("C17/correspondence-error", "coqc failed on generated cases: %s" % o_[-400:], {"file": p}, no_input=True)
-    if io_mism and as_found_io:
-        mism = sorted(mism + io_mism)      # tree shows the as-found CR behaviour but not the as-found model's output
+    # io cases are compared with the as-found text-mode model when the oracle saw the CR chunk-dependence on this
+    # tree, with the repaired (incremental decoding) model otherwise; either way a disagreement counts
+    mism = sorted(mism + io_mism)
     widened = 0
     if mism and not out.violations:
         # widened search: more and longer random cases, oracle only
@@ -280,11 +281,11 @@ def run(prop, tier, seed, replay=None):
                 "placement of 4 names whose code-point order differs from natural order, plus random create/delete histories; "
                 "non-trivial = at least one record emitted and >= 2 non-empty chunks (tf) / >= 2 emitting polls or a poll emitting >= 2 names (fn); "
                 "distinct by JSON of the case",
-        "traces_validated_against_impl": sum(sent.values()) - len(mism) - (len(io_mism) if not as_found_io else 0),
+        "traces_validated_against_impl": sum(sent.values()) - len(mism),
         "disagreements_checked": len(mism),
         "sent_to_coq_by_kind": sent,
-        "io_layer_variant": "as-found (matches run_chunks_textmode)" if as_found_io and not io_mism else
-                            ("as-found, model differs" if as_found_io else "no CR chunk-dependence observed (oracle only)"),
+        "io_layer_variant": ("as-found: read() flushes a pending CR (model run_chunks_textmode)" if as_found_io else
+                             "repaired: incremental decoding (model run_chunks_textmode_fixed)") + (", MODEL DIFFERS" if io_mism else ""),
         "case_kind_histogram": kinds,
         "delimiter_histogram": delims,
         "chunks_per_case_histogram": nchunks,
